@@ -291,14 +291,14 @@ func decExchange(op []int64) (exch, bool) {
 					return x, false
 				}
 			case 1:
-				if e.a < 200 || e.a > 599 { // 1xx are interim responses for net/http; not generated
+				if (e.a < 200 || e.a > 599) && e.a != 103 { // 103 only as an interim status before the attempt's final one (checked below)
 					return x, false
 				}
 			case 2:
 				if e.b < 0 || e.b > 1<<22 {
 					return x, false
 				}
-			case 3, 6, 7:
+			case 3, 6, 7, 8, 9:
 			case 4:
 				if e.a < 0 || e.a > 9 || e.b < 0 {
 					return x, false
@@ -311,6 +311,15 @@ func decExchange(op []int64) (exch, bool) {
 				return x, false
 			}
 			s = append(s, e)
+		}
+		last := int64(0)
+		for _, e := range s {
+			if e.t == 1 {
+				last = e.a
+			}
+		}
+		if last == 103 {
+			return x, false
 		}
 		x.scripts = append(x.scripts, s)
 	}
@@ -502,7 +511,11 @@ func (c *bufComp) Run(h *hlib.History) ([]hlib.Mon, bool) {
 			case 2:
 				hlib.WriteVia(w, genBody(e.a, e.b), int(e.a+e.b)+len(st.invs))
 			case 3:
-				if e.a < 0 {
+				if e.a < 0 && e.b == 1 { // streamed out with io.Copy: uses the body's WriteTo when it has one
+					var sink bytes.Buffer
+					_, _ = io.Copy(&sink, req.Body)
+					rec.read = append(rec.read, sink.Bytes()...)
+				} else if e.a < 0 {
 					d, _ := io.ReadAll(req.Body)
 					rec.read = append(rec.read, d...)
 				} else {
@@ -526,6 +539,15 @@ func (c *bufComp) Run(h *hlib.History) ([]hlib.Mon, bool) {
 				if f, ok := w.(http.Flusher); ok {
 					f.Flush()
 				}
+			case 8: // rewrites header values of its copy IN PLACE (element of the value slice, then sorts another)
+				if v := req.Header["Authorization"]; len(v) > 0 {
+					v[0] = "redacted-" + strconv.FormatInt(e.a, 10)
+				}
+				if v := req.Header["Cookie"]; len(v) > 0 {
+					v[0] = strings.ToUpper(v[0])
+				}
+			case 9: // rewrites the method of its copy (method-override middlewares do)
+				req.Method = []string{"PUT", "GET", "DELETE"}[e.a%3]
 			}
 			if hijacked {
 				break
@@ -870,10 +892,16 @@ func genScript(rng *rand.Rand, cfg []int64, bodyLen int64, final bool, targeted 
 	case 4:
 		s = append(s, ev{3, bodyLen + int64(rng.Intn(3)), 0})
 	default:
-		s = append(s, ev{3, -1, 0})
+		s = append(s, ev{3, -1, int64(rng.Intn(2))})
 	}
 	if rng.Intn(3) == 0 {
 		s = append(s, ev{4, int64(rng.Intn(3)), 100 + int64(rng.Intn(50))})
+	}
+	if rng.Intn(5) == 0 {
+		s = append(s, ev{8, int64(rng.Intn(9)), 0})
+	}
+	if rng.Intn(5) == 0 {
+		s = append(s, ev{9, int64(rng.Intn(3)), 0})
 	}
 	if rng.Intn(4) == 0 {
 		s = append(s, ev{5, 1000 + int64(rng.Intn(50)), 0})
@@ -899,6 +927,9 @@ func genScript(rng *rand.Rand, cfg []int64, bodyLen int64, final bool, targeted 
 	}
 	before := rng.Intn(2) == 0
 	if code != 0 && before {
+		if rng.Intn(5) == 0 {
+			s = append(s, ev{1, 103, 0}) // an informational status first: the last WriteHeader is the attempt's status
+		}
 		s = append(s, ev{1, code, 0})
 	}
 	total := genSize(rng, cfg[2], cfg[3])
@@ -935,6 +966,8 @@ func (c *bufComp) Gen(rng *rand.Rand, idx int, tier string, targeted bool) hlib.
 	memReq, maxReq := genLimits(rng)
 	memResp, maxResp := genLimits(rng)
 	h.Cfg = []int64{memReq, maxReq, memResp, maxResp}
+	shapeLit := int64(0)
+	methodShape := false // the retry expression looks at the request method: handlers then often rewrite the method of their copy
 	switch r := rng.Intn(10); {
 	case r < 3:
 		h.Cfg = append(h.Cfg, 0)
@@ -952,9 +985,11 @@ func (c *bufComp) Gen(rng *rand.Rand, idx int, tier string, targeted bool) hlib.
 			h.Cfg = append(h.Cfg, 0, 3, 4, 0, hlib.Pick(rng, 9, 10, 11, 12), 5, 1, 3, 3, 1, 499, 2) // Attempts() <= n && (ResponseCode() > 499 || IsNetworkError())
 		}
 	case r < 6:
+		methodShape = true
 		// the request method against a literal, also one that differs from a method only by case (POST is the most
 		// frequent method below): Attempts() <= n && RequestMethod() ==|!= "lit"
-		h.Cfg = append(h.Cfg, 1, 0, 3, 4, 0, hlib.Pick(rng, 1, 2, 3), 4, int64(rng.Intn(2)), hlib.Pick(rng, 0, 1, 1, 4, 5, 5, 5, 6))
+		shapeLit = hlib.Pick(rng, 0, 1, 1, 2, 4, 5, 6)
+		h.Cfg = append(h.Cfg, 1, 0, 3, 4, 0, hlib.Pick(rng, 1, 2, 3), 4, int64(rng.Intn(2)), shapeLit)
 	default:
 		h.Cfg = append(h.Cfg, 1)
 		genPred(rng, 3, &h.Cfg)
@@ -962,6 +997,9 @@ func (c *bufComp) Gen(rng *rand.Rand, idx int, tier string, targeted bool) hlib.
 	nex := 1 + rng.Intn(3)
 	for i := 0; i < nex; i++ {
 		method := hlib.Pick(rng, 0, 1, 1, 1, 2)
+		if methodShape && shapeLit%4 <= 2 && rng.Intn(5) != 0 {
+			method = shapeLit % 4 // mostly the method the expression's literal spells (exactly, or in another case)
+		}
 		bodyLen := genSize(rng, memReq, maxReq)
 		chunked := int64(rng.Intn(2))
 		if chunked == 1 && bodyLen == 0 && method != 1 {
@@ -978,6 +1016,9 @@ func (c *bufComp) Gen(rng *rand.Rand, idx int, tier string, targeted bool) hlib.
 		failing := rng.Intn(3) != 0
 		for k := 0; k < ns; k++ {
 			s := genScript(rng, h.Cfg, bodyLen, k == ns-1 && !(failing && rng.Intn(3) == 0), targeted)
+			if methodShape && rng.Intn(3) != 0 {
+				s = append([]ev{{9, int64(rng.Intn(3)), 0}}, s...)
+			}
 			op = append(op, int64(len(s)))
 			for _, e := range s {
 				op = append(op, e.t, e.a, e.b)
@@ -1020,7 +1061,15 @@ func (c *bufComp) Describe(h *hlib.History) interface{} {
 				case 2:
 					parts = append(parts, fmt.Sprintf("Write(%d bytes)", e.b))
 				case 3:
-					parts = append(parts, fmt.Sprintf("ReadBody(%d)", e.a))
+					if e.a < 0 && e.b == 1 {
+						parts = append(parts, "io.Copy(sink, req.Body)")
+					} else {
+						parts = append(parts, fmt.Sprintf("ReadBody(%d)", e.a))
+					}
+				case 8:
+					parts = append(parts, "rewrite Authorization/Cookie values of the copy in place")
+				case 9:
+					parts = append(parts, fmt.Sprintf("req.Method=%s", []string{"PUT", "GET", "DELETE"}[e.a%3]))
 				case 4:
 					parts = append(parts, fmt.Sprintf("req.Header.Set(%d,%d)", e.a, e.b))
 				case 5:
